@@ -24,6 +24,8 @@ def _addr_use_ok(c, p, local=None):
         return loc(p.func.value)
     if isinstance(p, ast.Subscript) and p.slice is c:
         return loc(p.value)       # id-keyed lookup in a local dict
+    if isinstance(p, ast.Call) and isinstance(p.func, ast.Attribute) and p.func.attr in ('setdefault', 'get', 'pop', '__contains__', '__getitem__') and p.args and p.args[0] is c:
+        return loc(p.func.value)  # the address is the KEY of a call-local dict (identity de-duplication: by_id.setdefault(id(p), p))
     return False
 
 
@@ -42,7 +44,7 @@ def _locals(fn):
 def check(model, R, tier):
     R.rule('C19.SEED', 'manual_seed seeds every generator family the package draws from (NumPy global state and Python random) with its argument, unconditionally', floor=2)
     R.rule('C19.SOURCE', 'every random draw in the package is a call on the seeded global generators (np.random.<legacy fn> / random.<fn>); no unseeded generator object, OS entropy, uuid or clock', floor=FLOOR_DRAWS)
-    R.rule('C19.ORDER', 'no iteration (for / comprehension / list() / sum() / sorted() / tuple()) over a hash-ordered container built in the package; sets are used for membership only', floor=3)
+    R.rule('C19.ORDER', 'no iteration (for / comprehension / list() / sum() / sorted() / tuple()) over a hash-ordered container built in the package; sets are used for membership only', floor=1)
     R.rule('C19.NOADDR', 'id() / hash() results are used only for identity membership tests against containers local to the call, never as data, ordering keys, seeds or keys of state that outlives the call', floor=1)
     ms = model.func('synapgrad.utils.manual_seed')
     arg = ms.pos_params[0]
